@@ -9,6 +9,7 @@ import RbV.Lemmas.BomOracle
 import RbV.Thm.GenSrcKmpLps
 import RbV.Thm.GenSrcShiftAndMasks
 import RbV.Thm.GenSrcHorspoolNew
+import RbV.Thm.GenSrcShiftAndNext
 /-!
 # C08 — exact matchers return exactly all occurrences
 
@@ -235,5 +236,37 @@ theorem horspool_new_source_empty_panics : Gen.SrcHorspoolNew.new [] = Rs.Res.pa
 
 example := horspool_new_source_spec [1, 2, 1] (by decide) (by decide)
 example : Horspool.shiftTab [1, 1, 3, 2] 1 = 2 ∧ Horspool.shiftTab [1, 1, 3, 2] 2 = 4 := by decide
+
+/-! ## The search loops translated from the source text (genpm; docs/notes/GEN.md, "Translated function bodies")
+
+`Matches::next` is translated as a function on the explicit iterator state; `Rs.drain next fuel s` calls it until it returns
+`None` — what a consumer of `find_all(..)` sees.  The text iterator `text.into_iter().enumerate()` is the pair
+(bytes not yet consumed, counter): the trusted reading of `IntoIterator<Item = &u8>` over a slice. -/
+
+/-- **ShiftAnd end to end on the translated source text**: `ShiftAnd::new(p)`, `.find_all(t)` and `Matches::next` called
+until `None`, all three as written in `shift_and.rs`, never panic (the `m <= 64` assertion holds, `i + 1 - m` never
+underflows, `masks[c]` is in bounds) and list exactly the occurrences of `p` in `t` — for every byte pattern of 1..64
+symbols and every byte text. No mirror model is left between the source text and the specification for this matcher. -/
+theorem shiftAnd_source_exact (p t : List Nat) (hp : 0 < p.length) (hm : p.length ≤ 64) (hbp : ∀ c ∈ p, c < 256)
+    (hb : ∀ c ∈ t, c < 256) (h64 : t.length < 2 ^ 64) :
+    GenSrcShiftAndNext.findAllSrc p t = Rs.Res.ok (occurrences p t) := by
+  rw [GenSrcShiftAndNext.findAllSrc_eq_model p t hp hm hbp hb h64, shiftAnd_exact p t hp hm]
+
+/-- one call of the translated `next` from a state that satisfies the automaton invariant: no panic; `None` only with the
+text exhausted and no further match in the model; `Some(v)` with `v` the model's next match and the invariant restored -/
+theorem shiftAnd_next_source_eq_model (p : List Nat) (hp : 0 < p.length) (hm : p.length ≤ 64) (rest pre : List Nat)
+    (active : Nat) (hinv : ShiftAnd.Inv p pre active) (hb : ∀ c ∈ rest, c < 256)
+    (h64 : pre.length + rest.length < 2 ^ 64) :
+    ∃ a' tx' r, GenSrcShiftAndNext.nextS p (active, (rest, pre.length)) = Rs.Res.ok ((a', tx'), r) ∧
+      GenSrcShiftAndNext.StepSpec p rest pre active a' tx' (r.map some) :=
+  GenSrcShiftAndNext.next_eq_model p hp hm rest pre active hinv hb h64
+
+/-- the translated constructor refuses patterns of more than 64 symbols -/
+theorem shiftAnd_new_source_long_panics (p : List Nat) (hm : 64 < p.length) :
+    Gen.SrcShiftAndNext.new p = Rs.Res.panic :=
+  GenSrcShiftAndNext.new_long_panics p hm
+
+example : GenSrcShiftAndNext.findAllSrc [1, 2, 1] [1, 2, 1, 2, 1] = Rs.Res.ok [0, 2] := by
+  rw [shiftAnd_source_exact _ _ (by decide) (by decide) (by decide) (by decide) (by decide)]; decide
 
 end RbV.Thm.C08
